@@ -128,6 +128,7 @@ type storeKey struct {
 
 // Store is the cluster state of one history; it outlives the runs.
 type Store struct {
+	mu      sync.Mutex // leaf-level: a run that hit the watchdog may still be using the store
 	tracker clienttesting.ObjectTracker
 	keys    map[storeKey]struct{}
 	nextUID uint64
@@ -139,7 +140,23 @@ func newTracker() clienttesting.ObjectTracker {
 	return dynamicfake.NewSimpleDynamicClient(scheme.Scheme).Tracker()
 }
 
+func (st *Store) note(format string, a ...interface{}) {
+	st.mu.Lock()
+	st.notes = append(st.notes, fmt.Sprintf(format, a...))
+	st.mu.Unlock()
+}
+
+func (st *Store) takeNotes() []string {
+	st.mu.Lock()
+	defer st.mu.Unlock()
+	n := st.notes
+	st.notes = nil
+	return n
+}
+
 func (st *Store) get(gvr schema.GroupVersionResource, ns, name string) *unstructured.Unstructured {
+	st.mu.Lock()
+	defer st.mu.Unlock()
 	if _, ok := st.keys[storeKey{gvr, ns, name}]; !ok {
 		return nil
 	}
@@ -157,6 +174,8 @@ func (st *Store) get(gvr schema.GroupVersionResource, ns, name string) *unstruct
 func (st *Store) put(gvr schema.GroupVersionResource, ns string, obj *unstructured.Unstructured) error {
 	k := storeKey{gvr, ns, obj.GetName()}
 	obj = obj.DeepCopy()
+	st.mu.Lock()
+	defer st.mu.Unlock()
 	if _, ok := st.keys[k]; ok {
 		return st.tracker.Update(gvr, obj, ns)
 	}
@@ -169,6 +188,8 @@ func (st *Store) put(gvr schema.GroupVersionResource, ns string, obj *unstructur
 
 func (st *Store) del(gvr schema.GroupVersionResource, ns, name string) {
 	k := storeKey{gvr, ns, name}
+	st.mu.Lock()
+	defer st.mu.Unlock()
 	if _, ok := st.keys[k]; ok {
 		_ = st.tracker.Delete(gvr, ns, name)
 		delete(st.keys, k)
@@ -177,11 +198,13 @@ func (st *Store) del(gvr schema.GroupVersionResource, ns, name string) {
 
 func (st *Store) list(gvr schema.GroupVersionResource, ns string) []*unstructured.Unstructured {
 	var ks []storeKey
+	st.mu.Lock()
 	for k := range st.keys {
 		if k.gvr == gvr && (ns == "" || k.ns == ns) {
 			ks = append(ks, k)
 		}
 	}
+	st.mu.Unlock()
 	sort.Slice(ks, func(i, j int) bool {
 		if ks[i].ns != ks[j].ns {
 			return ks[i].ns < ks[j].ns
@@ -198,6 +221,8 @@ func (st *Store) list(gvr schema.GroupVersionResource, ns string) []*unstructure
 }
 
 func (st *Store) allocUID() string {
+	st.mu.Lock()
+	defer st.mu.Unlock()
 	u := st.nextUID
 	st.nextUID++
 	return fmt.Sprintf("u%d", u)
@@ -351,8 +376,14 @@ func NewStore(univ Universe, c Cluster) *Store {
 
 // Clone copies the store object by object (used for probe runs).
 func (st *Store) Clone() *Store {
+	st.mu.Lock()
 	n := &Store{tracker: newTracker(), keys: map[storeKey]struct{}{}, nextUID: st.nextUID, univ: st.univ}
+	var ks []storeKey
 	for k := range st.keys {
+		ks = append(ks, k)
+	}
+	st.mu.Unlock()
+	for _, k := range ks {
 		if o := st.get(k.gvr, k.ns, k.name); o != nil {
 			if err := n.put(k.gvr, k.ns, o); err != nil {
 				panic(err)
@@ -401,7 +432,7 @@ func (st *Store) cobjAttrs(o *unstructured.Unstructured) CObj {
 			for _, d := range ds {
 				i := st.univ.Index(d)
 				if i < 0 {
-					st.notes = append(st.notes, "live depends-on target outside the universe: "+d.String())
+					st.note("live depends-on target outside the universe: "+"%s", d.String())
 					i = 99
 				}
 				c.Deps = append(c.Deps, i)
@@ -424,7 +455,7 @@ func (st *Store) cobjRest(c CObj, id int, o *unstructured.Unstructured) CObj {
 	if la, ok := o.GetAnnotations()[lastApplied]; ok {
 		m := map[string]interface{}{}
 		if err := json.Unmarshal([]byte(la), &m); err != nil {
-			st.notes = append(st.notes, fmt.Sprintf("object %d: unreadable last-applied annotation", id))
+			st.note("object %d: unreadable last-applied annotation", id)
 		} else {
 			sub := &Store{univ: st.univ}
 			a := sub.cobjAttrs(&unstructured.Unstructured{Object: m}).Attrs()
@@ -432,7 +463,7 @@ func (st *Store) cobjRest(c CObj, id int, o *unstructured.Unstructured) CObj {
 		}
 	}
 	if o.GetGeneration() != objGen {
-		st.notes = append(st.notes, fmt.Sprintf("object %d has generation %d", id, o.GetGeneration()))
+		st.note("object %d has generation %d", id, o.GetGeneration())
 	}
 	return c
 }
@@ -455,7 +486,7 @@ func (st *Store) keysToIDs(data map[string]string) []int {
 			i = st.univ.Index(m)
 		}
 		if i < 0 {
-			st.notes = append(st.notes, "inventory key outside the universe: "+k)
+			st.note("inventory key outside the universe: "+"%s", k)
 			i = 99
 		}
 		ids = append(ids, i)
@@ -479,7 +510,9 @@ func (st *Store) managed() []int {
 
 // Observe abstracts the store back into a cluster.
 func (st *Store) Observe() Cluster {
+	st.mu.Lock()
 	c := Cluster{NextUID: st.nextUID}
+	st.mu.Unlock()
 	for i, e := range st.univ {
 		if e.FInv {
 			continue
